@@ -124,8 +124,19 @@ def check_case(case):
     if got_literals != user_literals:
         raise Violation("string literals / DATA items of the user's program changed when dependencies were bundled: %r vs %r"
                         % (got_literals[:5], user_literals[:5]), case)
+    if "prog" in case:
+        # ... and against the source itself: every literal and DATA item of the program is in the user's procedure (the property does not
+        # speak about comments: a placeholder spelled inside a REM is rewritten like the library's, which is outside its wording)
+        from vf.props import c08
+
+        c08.check_content(case["prog"], "\n".join(ln.raw for ln in user.lines), case, with_comments=False)
     case["_closure"] = len(expected)
     return None
+
+
+def _open(stmt):
+    """An assignment whose string literal is left open swallows the rest of its line: nothing may be appended after it."""
+    return stmt[0] == "let" and len(stmt) > 4
 
 
 @st.composite
@@ -143,14 +154,14 @@ def cases(draw, switches):
         if where == "str":
             line[1].insert(0, ["let", ["svar", "T"], ["str", t], False])
         elif where == "data":
-            if line[1][-1][0] in ("rem", "if"):
+            if line[1][-1][0] in ("rem", "if") or _open(line[1][-1]):
                 line[1].insert(0, ["let", ["svar", "T"], ["str", t], False])
             else:
                 line[1].append(["data", [["q", t], ["q", ""]]])
         else:
             if line[1][-1][0] == "rem":
                 line[1][-1] = ["rem", " " + t + draw(st.sampled_from(["", ' "', ' "x" "'])), "REM"]
-            elif line[1][-1][0] != "if":
+            elif line[1][-1][0] != "if" and not _open(line[1][-1]):
                 line[1].append(["rem", " " + t + draw(st.sampled_from(["", ' "', ' "x" "'])), draw(st.sampled_from(["REM", "'"]))])
         trig = True
     if "no_run_in_comments" in switches:
@@ -166,7 +177,7 @@ def cases(draw, switches):
     c["initialize_vars"] = draw(st.booleans())
     c["paren_unary"] = "paren_unary" in switches
     c["_meta"]["trigger"] = trig
-    return c
+    return full.add_layout(draw, c, switches)
 
 
 def campaign(seed, n, switches=frozenset()):
@@ -174,6 +185,8 @@ def campaign(seed, n, switches=frozenset()):
 
     def body(case):
         meta = case.pop("_meta")
+        if meta.get("drawn_layout"):
+            stats.classes["drawn_layout"] += 1
         case = dict(case)
         check_case(case)
         nt = case.get("_status") == "ok" and (case.get("_closure", 0) >= 3 or meta["trigger"])
